@@ -182,11 +182,12 @@ func minimise(env *check.Env, w *check.World, v *check.Violation, prop string) (
 					progress = true
 				}
 			}
-			if l.PreDelete > 0 || l.PreCorrupt > 0 || l.Shuffle > 0 {
+			if l.PreDelete > 0 || l.PreCorrupt > 0 || l.Shuffle > 0 || l.PreLink > 0 {
 				// hand-deleted / damaged files and -shuffle: drop them when they do not matter
 				for _, f := range []func(x *scen.Lifetime){
 					func(x *scen.Lifetime) { x.PreDelete = 0 },
 					func(x *scen.Lifetime) { x.PreCorrupt = 0 },
+					func(x *scen.Lifetime) { x.PreLink = 0 },
 					func(x *scen.Lifetime) { x.Shuffle = 0 },
 				} {
 					c := cloneWorld(best)
